@@ -110,6 +110,14 @@ def getBlock (c : Core) (d : Disk) (i : Nat) : Step (Option Bytes) :=
         | none => { core := c, result := .error .err }
         | some bs => { core := c, result := .ok (some bs) }
 
+/-- first index of the widest hole around a cleared range: one past the last held block at or before `start` -/
+def holeStart (bf : Bitfield) (start : Nat) : Nat :=
+  match bf.lastIndexOfTrue start with | some i => i + 1 | none => 0
+
+/-- end of that hole: the first held block at or after `fin`, else the length -/
+def holeEnd (bf : Bitfield) (fin len : Nat) : Nat :=
+  match bf.indexOfTrue fin with | some i => i | none => len
+
 /-- `clear`; `d` is the disk before the call -/
 def clear (c : Core) (d : Disk) (start fin : Nat) : Step Unit :=
   if start ≥ fin then { core := c, result := .ok () }
@@ -119,8 +127,8 @@ def clear (c : Core) (d : Disk) (start fin : Nat) : Step Unit :=
     let bf := c.bitfield.setRange start (fin - start) false
     let header := if start < c.header.contiguous then { c.header with contiguous := start } else c.header
     let c1 := { c with oplog := ol, bitfield := bf, header := header }
-    let s' := match bf.lastIndexOfTrue start with | some i => i + 1 | none => 0
-    let e' := match bf.indexOfTrue fin with | some i => i | none => c.tree.length
+    let s' := holeStart bf start
+    let e' := holeEnd bf fin c.tree.length
     match c.tree.byteOffset d.tree s' with
     | .error e => { core := c1, result := .error e, journal := j1 }
     | .ok off =>
